@@ -140,6 +140,56 @@ impl<K, V> SmallMap<K, V> {
         }
     }
 
+    /// Check that the index (when present) and the entries agree.
+    ///
+    /// Verification hook: same checks as the test-only `assert_invariants`,
+    /// but returning an error instead of panicking, and available to external harnesses.
+    #[cfg(starlark_verif)]
+    pub fn verif_check_invariants(&self) -> Result<(), String>
+    where
+        K: Eq,
+    {
+        if let Some(index) = &self.index {
+            if index.len() != self.entries.len() {
+                return Err(format!(
+                    "index.len() = {} but entries.len() = {}",
+                    index.len(),
+                    self.entries.len()
+                ));
+            }
+            for j in index.iter() {
+                if *j >= self.entries.len() {
+                    return Err(format!(
+                        "index holds position {} but entries.len() = {}",
+                        j,
+                        self.entries.len()
+                    ));
+                }
+            }
+            for (i, (k, _)) in self.entries.iter_hashed().enumerate() {
+                let found = index.find(k.hash().promote(), |j| {
+                    self.entries
+                        .get_index(*j)
+                        .is_some_and(|(k2, _)| k2 == *k.key())
+                });
+                match found {
+                    None => return Err(format!("entry {} is not in the index", i)),
+                    Some(j) if *j != i => {
+                        return Err(format!("entry {} is indexed at position {}", i, j));
+                    }
+                    Some(_) => {}
+                }
+            }
+        }
+        Ok(())
+    }
+
+    /// Does this map currently have a hash index? Verification hook.
+    #[cfg(starlark_verif)]
+    pub fn verif_has_index(&self) -> bool {
+        self.index.is_some()
+    }
+
     /// Drop the index if the map is too small, and the index is not really needed.
     ///
     /// We don't allocate index prematurely when we add entries the map,
